@@ -8,10 +8,15 @@ ASSUMPTIONS = [
     "network: any subset / order / duplication (bounded) of direct and batch messages; a batch is applied removals first, then modifications, as two steps; "
     "repair per ordered pair as GetState, Diff, RemovalHalf, Fetch (peer's current storage), ApplyModified, Finish - independently enabled; "
     "the convergence claim is made when nothing is pending and every ordered pair completed an exchange that STARTED after the last operation",
-    "exhaustive configs are small (2-3 operations, bounded exchanges); larger universes are explored by TLC simulation, and every converged "
-    "behaviour found is replayed on real nodes (real KeyspaceGroup + Clock with injected wall clock + real Consistency/Replication services over loopback RPC)",
-    "the keyspace-timestamp tracker that lets the real poller skip unchanged keyspaces and the distributor's own aggregation loop are not modelled "
-    "(the harness builds batch payloads as the distributor does); storage failures are C02's subject",
+    "exhaustive configs are small (2-3 operations, bounded exchanges); larger universes are explored by TLC simulation, and one configuration (T1: "
+    "keyspace tracker on, no direct replication) contributes one shortest behaviour for every distinct converged state",
+    "every behaviour is replayed on real nodes (real KeyspaceGroup + Clock with injected wall clock + real Consistency/Replication services over "
+    "loopback RPC) step by step; a part of them again with every exchange run in one piece by the real poller code (get_keyspace_diff + "
+    "begin_keyspace_sync, or a repair_members round), and again with the model's exchanges replaced by real poller rounds that use each node's "
+    "own keyspace tracker, followed by rounds up to the poller's fixpoint; the expectation is the same in all three modes",
+    "the progress watcher of begin_keyspace_sync polls every 2 ms instead of 250 ms in these runs (guarded hook; what it looks at is unchanged)",
+    "the distributor's own aggregation loop is specified separately (Distributor.tla, validated on the real clusters of C06); here the harness "
+    "builds batch payloads as the distributor does; storage failures are C02's subject",
 ]
 
 
